@@ -223,9 +223,15 @@ def execute(mat, ctx):
     for j in range(nm + 1):
         if not has_cit:
             break
-        for badcit in ("7", "[99]", "[x]", "BARE:[1]"):
+        for badcit in ("7", "[99]", "[x]", "BARE:[1]", "AFTER-VALID:[99]"):
             spec = copy.deepcopy(specs[j])
-            spec["features"] = list(spec["features"]) + [{"type": "misc_feature", "parts": [[0, 1, 1]], "quals": {"uid": ["bad.%d" % j], "citation": [badcit]}}]
+            cits = [badcit]
+            if badcit.startswith("AFTER-VALID:"):
+                # the dangling citation follows valid ones of the same feature (already looked up when the call fails)
+                if not spec.get("refs"):
+                    continue
+                cits = ["[1]", "[%d]" % len(spec["refs"]), badcit[12:]]
+            spec["features"] = list(spec["features"]) + [{"type": "misc_feature", "parts": [[0, 1, 1]], "quals": {"uid": ["bad.%d" % j], "citation": cits}}]
             recs = list(shared)
             recs[j] = gen.make_record(spec)
             if badcit.startswith("BARE:"):
